@@ -20,6 +20,9 @@ def run(tier, seed):
             cases.append({"name": "t%d" % len(cases), "kind": "impostor", "impostor": "othercert", "proto": p})
             cases.append({"name": "t%d" % len(cases), "kind": "impostor", "impostor": "nocert", "proto": p})
             cases.append({"name": "t%d" % len(cases), "kind": "impostor", "impostor": "chain", "proto": p})
+        # the plugin alone, with a host certificate that reached it damaged
+        for p in ["netrpc", "grpc"]:
+            cases.append({"name": "t%d" % len(cases), "kind": "mangled", "impostor": rng.choice(["firstline", "truncated", "garbage"]), "proto": p})
     obs, crashes = vlib.run_cases(b["drivers"], "TestMTLSCases", cases, "c12", env={"VERIF_VPLUGIN": b["vplugin"], "VERIF_CASE_TIMEOUT_S": "120"},
                                   shards=min(6, len(cases)), serial=True, timeout=1800)
     by = {c["name"]: c for c in cases}
@@ -34,6 +37,12 @@ def run(tier, seed):
     r2, dev = vlib.judge_observations("TraceMTLS", "trace_mtls.cfg", obs_list, "c12")
     for name in dev:
         o, c = obs[name], by[name]
+        if c["kind"] == "mangled":
+            served = [a for a in o["out"].get("attempts", []) if a["served"]]
+            rep.violation("c12:mangled:%s:%s" % (c["proto"], "+".join(sorted(set(a["cred"] for a in served))) or "setup"),
+                          "%s plugin whose PLUGIN_CLIENT_CERT arrived damaged (%s) served %s" % (c["proto"], c["impostor"], ", ".join("a peer presenting %s" % a["cred"] for a in served) or json.dumps(o["out"])[:300]),
+                          {"case": c, "observation": o})
+            continue
         if c["kind"] == "impostor":
             how = {"nocert": "announced no certificate and served in plaintext", "chain": "announced a certificate it has no key for and served with another, appending the announced one to its chain"}.get(
                 c.get("impostor"), "announced one certificate and served with another")
